@@ -92,6 +92,8 @@ def _build():
     add(Check("C12", bp_mods + ["py_ast"], explanation="wire format depends only on field numbers and resolved types: alias/enum "
               "transparency and sorted-order contracts (_ast.py, bp.py), every listed rewrite of a base schema proved per program "
               "(Python, C standard, C -O) against its own reference layout, and the lemma that those layouts are bit-identical"))
+    add(Check("C16", ["gen_c", "gen_py"], explanation="JSON: the generated C Json function + the real runtime emit, as a sequence of "
+              "BpJsonFormatString calls, exactly the prescribed JSON value; the generated Python to_dict/to_json give the same value"))
     comp = ["py_ast", "py_parser", "py_main_lint"]
     for pr, ex in [
         ("C08", "two-sided 'raises X <=> constraint violated' contracts on every validator of _ast.py / options.py for ALL integers "
